@@ -5,7 +5,13 @@ The TLA+ specification never sees text.  A formula record is
     {"ps": [[name, hasDefault, default], ...],
      "ops": [["const", v] | ["call", [names...], [arg...], spelling]
              | ["read", [names...]] | ["raise", e] | ["none"]],
-     "catch": bool, "onerr": int, "style": "def"|"lambda"|"defx"}
+     "catch": bool, "onerr": int, "style": "def"|"lambda"|"defx"|"defrr"}
+
+style "defrr" (with "probe": a call op): the body runs inside `try:`, and the handler
+`except Exception:` evaluates the probe inside its own try/except BaseException and then
+re-raises with a bare `raise` -- the value / error of the formula is that of its ops
+(MxSem.Den does not look at it), but another evaluation happens, and fails or not, while
+the original exception is on its way out.
 
 arg = ["k", i] | ["dec", i] | ["c", v]     (i is a 1-based parameter index)
 spelling = "pos" | "kw" | "sub" | "value"   (how the call is written)
@@ -91,8 +97,9 @@ def render(frec, name, sigs=None):
     ind = "    "
     body = []
     catch = frec.get("catch", False)
-    pre = ind * 2 if catch else ind
-    if catch:
+    rr = style == "defrr"
+    pre = ind * 2 if (catch or rr) else ind
+    if catch or rr:
         body.append(ind + "try:")
     body.append(pre + "_a = 0")
     for op in ops:
@@ -117,12 +124,22 @@ def render(frec, name, sigs=None):
     if catch:
         body.append(ind + "except Exception:")
         body.append(ind * 2 + "return %d" % frec.get("onerr", 0))
+    if rr:
+        # the handler evaluates another element, handles whatever that raises itself,
+        # and lets the original exception continue
+        probe = frec["probe"]
+        body.append(ind + "except Exception:")
+        body.append(ind * 2 + "try:")
+        body.append(ind * 3 + call_src(probe, ps, sigs.get(probe[1][-1])))
+        body.append(ind * 2 + "except BaseException:")
+        body.append(ind * 3 + "pass")
+        body.append(ind * 2 + "raise")
     return "def %s(%s):\n%s\n" % (name, params_src(ps), "\n".join(body))
 
 
 def op_line(frec, idx):
     """1-based source line of op number idx (0-based) in the def rendering."""
-    base = 3 if not frec.get("catch", False) else 4
+    base = 3 if not (frec.get("catch", False) or frec.get("style") == "defrr") else 4
     return base + idx
 
 
